@@ -22,12 +22,35 @@ import (
 	"storj.io/picobuf"
 )
 
+// abortingMessage: a hand-written message whose Encode writes a field and then panics (user code may; the caller
+// recovers). What such a call leaves behind must not leak into the next one.
+type abortingMessage struct{}
+
+func (abortingMessage) Encode(c *picobuf.Encoder) bool {
+	v := int64(-7)
+	c.AlwaysInt64(2047, &v)
+	s := "aborted aborted aborted"
+	c.AlwaysString(2046, &s)
+	panic("abortingMessage")
+}
+func (abortingMessage) Decode(c *picobuf.Decoder) {}
+
+var marshalCalls int
+
 func safeMarshal(m picobuf.Message) (b []byte, panicked string) {
 	defer func() {
 		if r := recover(); r != nil {
 			panicked = fmt.Sprint(r)
 		}
 	}()
+	marshalCalls++
+	if marshalCalls%2 == 0 {
+		// every second Marshal comes right after one that was aborted by a panic in user code
+		func() {
+			defer func() { _ = recover() }()
+			_, _ = picobuf.Marshal(abortingMessage{})
+		}()
+	}
 	b, err := picobuf.Marshal(m)
 	if err != nil {
 		return nil, "error: " + err.Error()
